@@ -56,6 +56,7 @@ var c11Scripts = []c11Script{
 	// terminating programs: cancellation beyond their end must change nothing
 	{"term-arith", `local s = 0 for i = 1, 20 do s = s + i * i end emit("sum", s) return s`, false, 1},
 	{"term-pcall", `local ok, e = pcall(error, {}) emit("pc", ok, type(e)) local t = {} for i = 1, 5 do t[i] = tostring(i) end emit(table.concat(t)) return #t`, false, 2},
+	{"term-co-outlives-creator", `local inner local outer = coroutine.wrap(function() inner = coroutine.wrap(function(a) local b = coroutine.yield(a) return b + 1 end) return inner(1) end) emit("outer", outer()) emit("inner", inner(5)) local c2 = coroutine.create(function() local c3 = coroutine.create(function() coroutine.yield("c3") return "c3-end" end) coroutine.resume(c3) return c3 end) local ok, c3 = coroutine.resume(c2) emit(coroutine.status(c2), coroutine.resume(c3)) return "done"`, true, 4},
 	{"term-co", `local co = coroutine.wrap(function(a) local b = coroutine.yield(a + 1) return b * 2 end) emit(co(1)) emit(co(10)) return "done"`, true, 3},
 }
 
